@@ -58,6 +58,7 @@ fn config_of(spec: &Value, idx: usize) -> Config {
     let alpha = match s(spec, "alpha", "full") {
         "structural" => Alphabet::Structural,
         "canonical" => Alphabet::Canonical,
+        "repr" => Alphabet::Repr,
         _ => Alphabet::Full,
     };
     let threads = u(spec, "threads", 1) as usize;
